@@ -15,7 +15,7 @@ NATIVE = {
     "C03": ["proofs.honest_replication"],
     "C04": ["proofs.arbitrary_proofs_refused", "proofs.altered_proofs_refused"],
     "C05": ["merkle.reference_tree"],
-    "C06": ["oplog.open_js_layout", "bitfield.open", "bitfield.from_data", "e2e.js_layout_dump"],
+    "C06": ["oplog.open_js_layout", "bitfield.open", "bitfield.from_data", "merkle.reference_tree"],
     "C07": ["e2e.torn_writes", "oplog.open_js_layout"],
     "C08": ["bitfield.ranges", "bitfield.open", "bitfield.from_data", "e2e.list_model_pages", "e2e.list_model"],
     "C09": ["proofs.requests_no_panic", "proofs.requests_exhaustive_small", "proofs.arbitrary_proofs_refused"],
